@@ -11,6 +11,7 @@ C06 (efficiency characteristics), C07 (consumption and power-split characteristi
 -/
 import FeemsProofs.Lemmas.PchipLemmas
 import FeemsModel.Model.Component
+import FeemsModel.Model.Engine
 
 set_option linter.unusedVariables false
 
@@ -158,6 +159,26 @@ theorem curve_monotone {n : Nat} {x : Nat → Rat} (y : Nat → Rat) (hs : Stric
     eval n x y a ≤ eval n x y b := eval_monotone y hs hn hy h0 hab h1
 theorem curve_two_points_linear (x y : Nat → Rat) (hx : x 0 < x 1) (t : Rat) :
     eval 2 x y t = y 0 + (y 1 - y 0) / (x 1 - x 0) * (t - x 0) := eval_two x y hx t
+
+open Feems Feems.Comp Feems.Engine in
+/-- C07 with the interpolant modelled: an engine whose consumption table gives values in `[lo, hi]` g/kWh burns,
+at any load between its first and last table point, between `lo` and `hi` grams per kWh delivered — `nonneg`
+without its hypothesis about the interpolant (which the extrapolated cubic does not meet: outside the table it
+can go below zero, the reason the generators keep powers inside the curves). -/
+theorem fuel_within_points {pts : List (Rat × Rat)} (h2 : 2 ≤ pts.length) (ha : Accepted pts) {lo hi : Rat}
+    (hy : ∀ p ∈ pts, lo ≤ p.2 ∧ p.2 ≤ hi) {rated P : Rat} (hP : 0 ≤ P)
+    (h0 : ((sorted pts).map (·.1)).getD 0 0 ≤ load rated P)
+    (h1 : load rated P ≤ ((sorted pts).map (·.1)).getD ((sorted pts).length - 1) 0) :
+    lo * P / 3600000 ≤ engineFuel (etaOfPoints pts) rated P ∧
+      engineFuel (etaOfPoints pts) rated P ≤ hi * P / 3600000 := by
+  obtain ⟨v, e, l, h⟩ := curve_within h2 ha hy h0 h1
+  unfold engineFuel etaOfPoints
+  rw [e]
+  simp only []
+  constructor
+  · have := mul_le_mul_of_nonneg_right l hP; linarith
+  · have := mul_le_mul_of_nonneg_right h hP; linarith
+
 end Feems.Props.C07
 
 namespace Feems.Props.C09
